@@ -15,6 +15,8 @@ MCNext ==
        /\ \E o \in {"pok", "perr"} : LET ev == [e |-> "hold", outcome |-> o] IN Hold(ev) /\ Log(ev)
     \/ /\ on /\ held # <<>>
        /\ LET ev == [e |-> "resume"] IN Resume(ev) /\ Log(ev)
+    \/ /\ on /\ GenMode /\ held # <<>> /\ hist[Len(hist)].e # "adv"
+       /\ \E ms \in {250, 60000, 60001} : LET ev == [e |-> "adv", ms |-> ms] IN Adv(ev) /\ Log(ev)
 MCSpec == MCInit /\ [][MCNext]_<<tvars, hist>>
 GenBound == Len(hist) <= GenDepth
 PrintBehaviour == (GenMode /\ Len(hist) = GenDepth) => PrintT(<<"REPLAY", ToJson(hist)>>)
